@@ -7,7 +7,7 @@
    `run` is the unique run.  `C09_model_is_closed_form` / `C09_seq_model_is_closed_form` link the API-level models to
    the closed forms (graph and io-map equality whenever the model returns), so `C09_unroll_partial` and
    `C09_sequential_unroll_partial` are about the models themselves.  Not proved, decided per case by Run_C09.agree/holds:
-   `C09_total_full` (the model returns inside the guards), lint-cleanliness of the result, and for sequential circuits the
+   `C09_total_full` (the model returns inside the guards), and for sequential circuits the
    step from the stripped circuit to the flop circuit itself (`C09_sequential_unroll_full`). *)
 From stdpp Require Import strings gmap sets fin_sets.
 From CG Require Import Base.Oracle Model.Unroll Model.Lint Proofs.UnrollProofs Proofs.UnrollLink.
@@ -89,7 +89,7 @@ Print Assumptions C09_seq_model_is_closed_form.
 (* --- the property about the models (DESIGN.md C09_unroll): what `unroll C n sio prefix` returns has the io map
        io_map[o][t] = <o>_<prefix>_<t>, free inputs = step-0 state inputs + per-step copies of the other inputs, and every
        consistent valuation carries at io_map[o][t] the value of running c for t+1 steps.  Missing for the unconditional
-       statement: `C09_total_full` (the model does return) and lint-cleanliness of the result. --- *)
+       statement: `C09_total_full` (the model does return). --- *)
 Theorem C09_unroll_partial : ∀ C n sio prefix U m,
   lint_clean C → closed (c_g C) → acyclic (c_g C) → free_are_inputs (c_g C) →
   sio_ok (c_g C) sio → unroll_names_ok (c_g C) n sio prefix →
@@ -123,9 +123,24 @@ Print Assumptions C09_sequential_unroll_partial.
 Definition C09_total_full : Prop := ∀ C n sio prefix,
   lint_clean C → bb_free C → closed (c_g C) → acyclic (c_g C) → 1 ≤ n → sio_ok (c_g C) sio → unroll_names_ok (c_g C) n sio prefix →
   ∃ U m, unroll C n sio prefix = Ok (U, m).
-Definition C09_result_lint_clean_full : Prop := ∀ C n sio prefix,
-  lint_clean C → closed (c_g C) → sio_ok (c_g C) sio → unroll_names_ok (c_g C) n sio prefix →
-  lint_clean {| c_name := "circuit"; c_g := unroll_closed (c_g C) n sio prefix; c_bbs := ∅ |}.
+(* the closed form passes lint, hence so does whatever `unroll` returns *)
+Theorem C09_result_lint_clean : ∀ C n sio prefix nm,
+  lint_clean C → c_bbs C = ∅ → startpoints (c_g C) = inputs (c_g C) → has_dot prefix = false →
+  NoDup (unroll_nodes (c_g C) n sio prefix).*1 →
+  lint_clean {| c_name := nm; c_g := unroll_closed (c_g C) n sio prefix; c_bbs := ∅ |}.
+Proof. exact unroll_closed_lint_clean. Qed.
+Print Assumptions C09_result_lint_clean.
+Theorem C09_unroll_lint_clean_partial : ∀ C n sio prefix U m,
+  lint_clean C → c_bbs C = ∅ → startpoints (c_g C) = inputs (c_g C) → has_dot prefix = false →
+  sio_ok (c_g C) sio → unroll_names_ok (c_g C) n sio prefix →
+  unroll C n sio prefix = Ok (U, m) → lint_clean U.
+Proof.
+  intros C n sio prefix U m Hl Hb Hsp Hp (Hs1 & _ & Hs3) Hnm Hok.
+  destruct (unroll_closed_form C n sio prefix U m (lint_clean_inputs_undriven9 C Hl)) as [-> _]; try done.
+  - intros kv Hkv. rewrite Forall_forall in Hs1. by apply Hs1.
+  - apply unroll_closed_lint_clean; try done. apply Hnm.
+Qed.
+Print Assumptions C09_unroll_lint_clean_partial.
 (* the remaining distance to the property text for sequential circuits: the stripped circuit `seq_stripped` versus the flop
    circuit itself (state = Q pins, next state = D pins), the output marks and the initial-value types; decided by Run_C09.holds *)
 Definition C09_sequential_unroll_full : Prop := ∀ C n d q ign afo iv ru prefix U m,
